@@ -172,6 +172,7 @@ ROUND8 = {
  "C08": " Audit round: C08.unrouted-types-no-work - block-made types (ATR, Fee, Issuance, SPV), whose paths are never verified, get no routing work.",
  "C11": " Audit round: C11.peer-assert - no assert!/assert_eq! in a handler-reachable body compares a field of a wire message.",
  "C13": " Audit round: C13.fee-deducted - a rebroadcast fee booked into total_fees_atr flows into the rebroadcast transaction's outputs.",
+ "C14": " Audit round: C14.bundle-no-assert (bundle_block answers 'cannot bundle' with None, never with an assertion) and C14.sweep-window (the pool sweep applies the retention-window test).",
  "C17": " Audit round: cross-lists C11.peer-assert for the handshake handlers.",
  "C19": " Audit round: C19.ordinal also decides that an input given back on unwind returns under its own (block_id, tx_ordinal).",
 }
